@@ -130,6 +130,7 @@ static std::vector<Pool> make_pools() {
     P.push_back({"esc-digit", {A("\\+", cs_of({'+'})), A("1", cs_of({'1'}))}});
     P.push_back({"sets", {A("[ab]", cs_of({'a', 'b'})), A("[^\\x00-a]", ~cs_range(0, 'a'))}});
     P.push_back({"nul-ff", {A("\\x", cs_of({0})), A("[\\xf0-\\xff]", cs_range(0xf0, 0xff))}});
+    P.push_back({"mid-range", {A("[\\x70-\\x90]", cs_range(0x70, 0x90)), A("[^ -\\xfe]", ~cs_range(0x20, 0xfe))}});
     P.push_back({"abc", {A("a", cs_of({'a'})), A("b", cs_of({'b'})), A("c", cs_of({'c'}))}});
     return P;
 }
